@@ -181,7 +181,7 @@ class FlowRowModel(ParserModel):
             return basic_header_dict[header]
 
         if header == "message_text":
-            return row_type_to_main_arg[row["type"]]
+            return row_type_to_main_arg[row["type"].strip()]
 
         return header
 
